@@ -28,8 +28,8 @@ Full statement / proved / missing
 * widening — PROVED for every range position: `C03_widen_int`, `_float`, `_timespan`, `_string`, `_collection`, `_array`, `_hash`, `_tuple`
   (an explicit Tuple size).
 * transitivity — `C03_trans` is kept as a `def … : Prop`.  It is FALSE of the code: `C03_trans_fails_sfh` (PERMANENT: the by-specification
-  Struct-from-Hash rule, known finding C03-trans-struct-from-hash) and `C03_trans_fails_iterable` (Iterable has no Struct arm, known finding
-  C03-trans-iterable).  `C03_trans_partial` is PROVED, unbounded, for both settings of the rule: on the fragment `Ty.TF` = hereditarily
+  Struct-from-Hash rule, known finding C03-trans-struct-from-hash).  The second former counterexample (Iterable had no Struct arm, finding
+  C03-trans-iterable) was repaired in /repo: `C03_iterable_struct_repaired`.  `C03_trans_partial` is PROVED, unbounded, for both settings of the rule: on the fragment `Ty.TF` = hereditarily
   no Unit, Struct, Iterable, Data/RichData — i.e. Any, Undef, Default, Scalar, ScalarData, Numeric, Integer, Float, Boolean, Timespan,
   the whole String family (String, String[n,m], String['x'], Enum, Pattern), Regexp, Binary, Collection, Array, TUPLE (stage 2), Hash,
   Variant, Optional, NotUndef (including its fall-through rule), Type, Sensitive, Object, arbitrarily nested — by induction on the summed
@@ -172,13 +172,19 @@ theorem C03_trans_fails_sfh :
     simp [asg, asgRecv, sameNullary, asgMembers, structSize, Rng.sub, Rng.all, isStringFamily], by
     simp [asg, asgRecv, sameNullary, structAll, structMember, distinctCount]⟩
 
-/-- Iterable accepts Hash (through its entry tuple), Hash accepts Struct, Iterable has no Struct arm -/
-theorem C03_trans_fails_iterable :
-    ∃ a b c : Ty, asg idCfg3 true a b = true ∧ asg idCfg3 true b c = true ∧ asg idCfg3 true a c = false :=
-  ⟨.iterable .any, .hash .any .any Rng.pos, .struct [("a", false, .any)], by
-    simp [asg, asgRecv, sameNullary], by
-    simp [asg, asgRecv, sameNullary, asgMembers, structSize, Rng.sub, Rng.pos, I64.max], by
-    simp [asg, asgRecv, sameNullary]⟩
+/-- REPAIRED in /repo (fix: Iterable rules for Struct, Enum and Pattern): Iterable accepts Hash (through its entry tuple), Hash
+    accepts Struct, and Iterable had no Struct rule — the former counterexample `C03_trans_fails_iterable` (known finding
+    C03-trans-iterable) now closes, as does the chain Iterable[String[1,1]] ⊒ String ⊒ Enum -/
+theorem C03_iterable_struct_repaired :
+    asg idCfg3 true (.iterable .any) (.hash .any .any Rng.pos) = true ∧
+    asg idCfg3 true (.hash .any .any Rng.pos) (.struct [("a", false, .any)]) = true ∧
+    asg idCfg3 true (.iterable .any) (.struct [("a", false, .any)]) = true ∧
+    asg idCfg3 true (.iterable (.strSz ⟨1, 1⟩)) (.enum ["ab"] false) = true := by
+  refine ⟨?_, ?_, ?_, ?_⟩
+  · simp [asg, asgRecv, sameNullary]
+  · simp [asg, asgRecv, sameNullary, asgMembers, structSize, Rng.sub, Rng.pos, I64.max]
+  · simp [asg, asgRecv, sameNullary, iterMembers]
+  · simp [asg, asgRecv, sameNullary, Rng.sub]
 
 theorem C03_trans_false : ¬ C03_trans := by
   intro h
